@@ -49,10 +49,14 @@ def build(form, trajs, dtypes=None, layout=None):
         return np.array(trajs, dtype=dt(0))
     if form == 'lol':
         return [[int(v) for v in t] for t in trajs]
+    def row(k, t):            # 'pylist': this row stays a plain Python list among arrays
+        if dtypes is not None and dtypes[k % len(dtypes)] == 'pylist':
+            return [int(v) for v in t]
+        return np.array(t, dtype=dt(k))
     if form == 'loa':
-        return [np.array(t, dtype=dt(k)) for k, t in enumerate(trajs)]
+        return [row(k, t) for k, t in enumerate(trajs)]
     if form == 'toa':
-        return tuple(np.array(t, dtype=dt(k)) for k, t in enumerate(trajs))
+        return tuple(row(k, t) for k, t in enumerate(trajs))
     if form == 'obj':
         import msmhelper as mh
         return mh.StateTraj([np.array(t, dtype=dt(k)) for k, t in enumerate(trajs)])
